@@ -7,6 +7,8 @@ From Verif Require Cobs.Model.
 From Verif Require Rule.Model.
 From Verif Require Store.Model Store.Check.
 
+From Verif Require Sched.Model.
+
 (* area id -> checker *)
 Definition dispatch (area : N) (v : val) : N :=
   match area with
@@ -16,6 +18,7 @@ Definition dispatch (area : N) (v : val) : N :=
   | 6%N => Store.Check.check_c06 v
   | 13%N => Rule.Model.check_val v
   | 16%N => Cobs.Model.check_val v
+  | 14%N => Sched.Model.check_val v
   | _ => 98%N
   end.
 
